@@ -62,6 +62,7 @@ class Trace:
         self.lib_calls = []      # every call to a function outside the repository (qname, loc)
         self.inlined = set()
         self.static_locals = []
+        self.vec_access = {}           # vecmodel: location of a subscript -> set of 'ok' / 'oob' / 'unknown'
         self.globals_read = {}  # qname -> (const?, loc)
         self.globals_written = {}
         self.setvar_calls = []  # (name literal or None, loc)
@@ -104,6 +105,7 @@ class Evaluator:
         self.regmap = regmap            # registered parameter name -> member path (set_var modelled as a store)
         self.noreturn = set(noreturn)  # repository functions that never return (proved by C16.R4)
         self.freeze = {}               # local / member name -> symbol: reads yield the symbol, assigned values are recorded
+        self.vecmodel = False          # concrete model of std::vector members/locals of constant length (init_var analyses)
         self.trace = Trace()
         self.memo = {}
 
@@ -268,6 +270,11 @@ class Evaluator:
                 return bt[1][int(it[1])]
             return ('elem', bt, it)
         if k == 'construct':
+            ty_ = str(e.get('t', '')).replace('const ', '')
+            if e['args'] and ty_ in self.prog.records and not (len(e['args']) == 1 and e.get('ctor', '') in ('void (const %s &)' % ty_, 'void (%s &&)' % ty_)):
+                r = self.construct_object(e, P, fr)
+                if r is not None:
+                    return r
             if len(e['args']) == 1:
                 return self.E(e['args'][0], P, fr)
             if 'basic_string<char' in str(e.get('t', '')) and e['args'] and e.get('ctor', '').startswith(('void (const char *', 'void (const std::basic_string')):
@@ -359,6 +366,10 @@ class Evaluator:
             return (fr['this'] + '.' if fr['this'] else '') + e['n']
         if b.get('k') == 'member':
             p = self.mpath(b, P, fr)
+            if p is not None and p in P.mem and P.mem[p][0] == 'sym' and P.mem[p][1].startswith('this:'):
+                # pointer / reference member known to designate an object (set by an inlined constructor)
+                pre = P.mem[p][1][5:]
+                return (pre + '.' if pre else '') + e['n']
             return None if p is None else p + '.' + e['n']
         if b.get('k') == 'un' and b['op'] == '*':
             return self.mpath({'base': b['e'], 'n': e['n']}, P, fr)
@@ -432,6 +443,9 @@ class Evaluator:
         if k == 'global':
             self.trace.globals_written.setdefault(t['q'], []).append(loc)
             return
+        if self.vecmodel and k == 'call' and t.get('n') in ('operator[]', 'operator*', 'at'):
+            if self.vec_store(t, v, P, fr, loc):
+                return
         if k == 'index' or (k == 'call' and t.get('n') == 'operator[]'):
             base = t['base'] if k == 'index' else t['args'][0]
             bt = strip(base, casts=True)
@@ -480,11 +494,30 @@ class Evaluator:
         else:
             obj = e.get('obj')
         if e.get('opcall') and n == 'operator[]':
-            return ('elem', self.E(args_e[0], P, fr), self.E(args_e[1], P, fr))
+            bt_, it_ = self.E(args_e[0], P, fr), self.E(args_e[1], P, fr)
+            if self.vecmodel:
+                ci = self.const_int(it_)
+                self.trace.vec_access.setdefault(loc, set()).add('unknown' if bt_[0] != 'cvec' or ci is None else ('ok' if 0 <= ci < len(bt_[1]) else 'oob'))
+            return self.elem_of(bt_, it_)
         if not e.get('inrepo'):
             args = tuple(self.E(a, P, fr) for a in args_e)
             if n in MATH:
                 return ('call', n, args)
+            if n == 'accumulate' and len(args_e) == 3 and q.startswith('std::'):
+                b_, e_ = strip(args_e[0], casts=True), strip(args_e[1], casts=True)
+                while b_.get('k') == 'construct' and len(b_['args']) == 1:
+                    b_ = strip(b_['args'][0], casts=True)
+                while e_.get('k') == 'construct' and len(e_['args']) == 1:
+                    e_ = strip(e_['args'][0], casts=True)
+                if b_.get('k') == 'call' and b_.get('n') in ('begin', 'cbegin') and e_.get('k') == 'call' and e_.get('n') in ('end', 'cend') and \
+                        b_.get('obj') is not None and e_.get('obj') is not None:
+                    vb, ve = self.E(b_['obj'], P, fr), self.E(e_['obj'], P, fr)
+                    if vb == ve:
+                        return ('add', (args[2], ('call', 'vsum', (vb,))))
+            if self.vecmodel:
+                r = self.vec_call(e, n, obj, args_e, args, P, fr, loc)
+                if r is not None:
+                    return r
             if n == 'size' and obj is not None:
                 return ('size', self.E(obj, P, fr))
             if n in ('at',) and obj is not None:
@@ -572,6 +605,10 @@ class Evaluator:
         if n in ('set_var', 'set_vec') and 'manufactured_solution<' in e.get('rec', ''):
             from .ast import str_value
             nm = str_value(args_e[0])
+            if nm is None:
+                t0 = self.E(args_e[0], P, fr)
+                if t0[0] == 'str':
+                    nm = t0[1]
             val = self.E(args_e[1], P, fr)
             self.trace.setvar_calls.append((nm, loc, n, val))
             if self.regmap is not None:
@@ -592,6 +629,232 @@ class Evaluator:
         for a, p in zip(args_e, fn.params):
             args.append(self.ref_or_value(a, p, P, fr))
         return self.inline_call(fn, args, this_path, P, fr)
+
+    @staticmethod
+    def elem_of(bt, it):
+        if bt[0] == 'cvec' and it[0] == 'num' and it[1].denominator == 1 and 0 <= int(it[1]) < len(bt[1]) and bt[1][int(it[1])] is not None:
+            return bt[1][int(it[1])]
+        if bt[0] == 'arr' and it[0] == 'num' and it[1].denominator == 1 and 0 <= int(it[1]) < len(bt[1]):
+            return bt[1][int(it[1])]
+        return ('elem', bt, it)
+
+    # ------------------------------------------------------------ concrete vectors (vecmodel)
+    def vec_key(self, node, P, fr):
+        o = strip(node, casts=True)
+        if o.get('k') == 'member':
+            pth = self.mpath(o, P, fr)
+            return ('m', pth) if pth is not None else None
+        if o.get('k') == 'local':
+            cur = P.locals.get((fr['id'], o['id']))
+            if cur is not None and cur[0] == 'alias':
+                return self.vec_key(cur[1], P, cur[2])
+            return ('l', fr['id'], o['id'])
+        if o.get('k') == 'param':
+            v = fr['args'][o['i']] if o['i'] < len(fr['args']) else None
+            if v is not None and v[0] == 'alias':
+                return self.vec_key(v[1], P, v[2])
+        return None
+
+    def vec_get(self, key, P):
+        if key is None:
+            return None
+        return P.mem.get(key[1]) if key[0] == 'm' else P.locals.get((key[1], key[2]))
+
+    def vec_put(self, key, val, P, loc):
+        if key[0] == 'm':
+            P.mem[key[1]] = val
+            self.trace.writes.setdefault(key[1], []).append(loc)
+            P.events.append(('write', key[1], loc))
+        else:
+            P.locals[(key[1], key[2])] = val
+
+    @staticmethod
+    def const_int(t):
+        if t[0] == 'call' and t[1] == 'trunc':
+            t = t[2][0]
+        if t[0] == 'num' and t[1].denominator == 1:
+            return int(t[1])
+        return None
+
+    def vec_store(self, t, v, P, fr, loc):
+        """V[i] = v / V.at(i) = v / *it = v on a concretely modelled vector"""
+        n = t.get('n')
+        if n == 'operator*' and t.get('opcall') and len(t['args']) == 1:
+            it = self.E(t['args'][0], P, fr)
+            if it[0] != 'viter':
+                return False
+            key, idx = it[1], it[2]
+        else:
+            base = t['args'][0] if t.get('opcall') else t.get('obj')
+            ix = t['args'][1] if t.get('opcall') else (t['args'][0] if t.get('args') else None)
+            if base is None or ix is None:
+                return False
+            key = self.vec_key(base, P, fr)
+            idx = self.const_int(self.E(ix, P, fr))
+        cur = self.vec_get(key, P)
+        if cur is None or cur[0] != 'cvec':
+            self.trace.vec_access.setdefault(t.get('l'), set()).add('unknown')
+            return False
+        self.trace.vec_access.setdefault(t.get('l'), set()).add('unknown' if idx is None else ('ok' if 0 <= idx < len(cur[1]) else 'oob'))
+        if idx is None or not (0 <= idx < len(cur[1])):
+            # store at an unknown / out-of-range position: nothing is known about the elements any more
+            self.vec_put(key, ('unk', 'vector stored at non-constant index'), P, loc)
+            return True
+        el = list(cur[1])
+        el[idx] = v
+        self.vec_put(key, ('cvec', tuple(el)), P, loc)
+        return True
+
+    def vec_call(self, e, n, obj, args_e, args, P, fr, loc):
+        """library calls on concretely modelled vectors and their iterators; None when not applicable"""
+        num_ = num
+        if obj is not None and not e.get('opcall'):
+            key = self.vec_key(obj, P, fr)
+            cur = self.vec_get(key, P)
+            iscv = cur is not None and cur[0] == 'cvec'
+            if key is None:
+                return None
+            if n == 'resize':
+                k_ = self.const_int(args[0]) if args else None
+                if k_ is None or k_ < 0 or k_ > 4096:
+                    return None
+                fillv = args[1] if len(args) > 1 else num_(0)
+                old = cur[1] if iscv else None
+                el = tuple(old[:k_]) + (fillv,) * max(0, k_ - len(old)) if old is not None else (None,) * k_
+                self.trace.obj_calls.append((key[1] if key[0] == 'm' else '?', n, args, loc))
+                self.vec_put(key, ('cvec', el), P, loc)
+                return ('unk', 'void')
+            if n == 'assign' and len(args) == 2 and self.const_int(args[0]) is not None and args[1][0] != 'viter' and 0 <= self.const_int(args[0]) <= 4096:
+                self.trace.obj_calls.append((key[1] if key[0] == 'm' else '?', n, args, loc))
+                self.vec_put(key, ('cvec', (args[1],) * self.const_int(args[0])), P, loc)
+                return ('unk', 'void')
+            if n == 'clear':
+                self.trace.obj_calls.append((key[1] if key[0] == 'm' else '?', n, args, loc))
+                self.vec_put(key, ('cvec', ()), P, loc)
+                return ('unk', 'void')
+            if not iscv:
+                return None
+            if n == 'push_back' and len(args) == 1:
+                self.trace.obj_calls.append((key[1] if key[0] == 'm' else '?', n, args, loc))
+                self.vec_put(key, ('cvec', cur[1] + (args[0],)), P, loc)
+                return ('unk', 'void')
+            if n == 'size':
+                return num_(len(cur[1]))
+            if n == 'empty':
+                return num_(int(len(cur[1]) == 0))
+            if n in ('begin', 'cbegin'):
+                return ('viter', key, 0)
+            if n in ('end', 'cend'):
+                return ('viter', key, len(cur[1]))
+            if n == 'at' and args:
+                return self.elem_of(cur, args[0])
+            if n in ('front', 'back') and cur[1]:
+                return self.elem_of(cur, num_(0 if n == 'front' else len(cur[1]) - 1))
+            return None
+        if e.get('opcall') and args and args[0][0] == 'viter':
+            it = args[0]
+            ob = strip(args_e[0], casts=True)
+            if n in ('operator++', 'operator--'):
+                d = 1 if n == 'operator++' else -1
+                new = ('viter', it[1], it[2] + d)
+                if ob.get('k') == 'local':
+                    P.locals[(fr['id'], ob['id'])] = new
+                    return it if len(args) > 1 else new      # postfix form carries a dummy int argument
+                return None
+            if n in ('operator+', 'operator-', 'operator+=', 'operator-=') and len(args) == 2:
+                if args[1][0] == 'viter' and n == 'operator-' and args[1][1] == it[1]:
+                    return num_(it[2] - args[1][2])
+                k_ = self.const_int(args[1])
+                if k_ is None:
+                    return None
+                new = ('viter', it[1], it[2] + (k_ if '+' in n else -k_))
+                if n.endswith('=') and ob.get('k') == 'local':
+                    P.locals[(fr['id'], ob['id'])] = new
+                return new
+            if n in ('operator==', 'operator!=', 'operator<', 'operator>', 'operator<=', 'operator>=') and len(args) == 2 and args[1][0] == 'viter' and args[1][1] == it[1]:
+                a_, b_ = it[2], args[1][2]
+                return num_(int({'==': a_ == b_, '!=': a_ != b_, '<': a_ < b_, '>': a_ > b_, '<=': a_ <= b_, '>=': a_ >= b_}[n[8:]]))
+            if n == 'operator*' and len(args) == 1:
+                cur = self.vec_get(it[1], P)
+                if cur is not None and cur[0] == 'cvec':
+                    return self.elem_of(cur, num_(it[2]))
+                return None
+            if n == 'operator[]' and len(args) == 2 and self.const_int(args[1]) is not None:
+                cur = self.vec_get(it[1], P)
+                if cur is not None and cur[0] == 'cvec':
+                    return self.elem_of(cur, num_(it[2] + self.const_int(args[1])))
+            return None
+        if n in ('fill', 'fill_n') and len(args) == 3 and args[0][0] == 'viter':
+            key = args[0][1]
+            cur = self.vec_get(key, P)
+            lo = args[0][2]
+            hi = args[1][2] if (n == 'fill' and args[1][0] == 'viter' and args[1][1] == key) else (lo + self.const_int(args[1]) if n == 'fill_n' and self.const_int(args[1]) is not None else None)
+            if cur is None or cur[0] != 'cvec' or hi is None or not (0 <= lo <= hi <= len(cur[1])):
+                return None
+            el = list(cur[1])
+            for i in range(lo, hi):
+                el[i] = args[2]
+            self.vec_put(key, ('cvec', tuple(el)), P, loc)
+            return ('unk', 'void')
+        if n in ('copy', 'copy_n') and len(args) == 3 and args[2][0] == 'viter':
+            # destination is a modelled vector: the source range must be a constant array (or a modelled vector)
+            key = args[2][1]
+            cur = self.vec_get(key, P)
+            src = None
+            if args[0][0] == 'arr':
+                cnt = None
+                if n == 'copy_n':
+                    cnt = self.const_int(args[1])
+                elif args[1][0] == 'add' and len(args[1][1]) == 2 and args[1][1][0] == args[0]:
+                    cnt = self.const_int(args[1][1][1])
+                if cnt is not None and 0 <= cnt <= len(args[0][1]):
+                    src = list(args[0][1][:cnt])
+            elif args[0][0] == 'viter':
+                sv = self.vec_get(args[0][1], P)
+                hi = args[1][2] if (n == 'copy' and args[1][0] == 'viter' and args[1][1] == args[0][1]) else None
+                if sv is not None and sv[0] == 'cvec' and hi is not None:
+                    src = list(sv[1][args[0][2]:hi])
+            if cur is None or cur[0] != 'cvec':
+                return None
+            if src is None or args[2][2] + len(src) > len(cur[1]):
+                self.vec_put(key, ('unk', 'vector written by %s from an unmodelled range' % n), P, loc)
+                return ('unk', 'void')
+            el = list(cur[1])
+            for i, x in enumerate(src):
+                el[args[2][2] + i] = x
+            self.vec_put(key, ('cvec', tuple(el)), P, loc)
+            return ('viter', key, args[2][2] + len(src))
+        # any other library routine receiving an iterator into a modelled vector may write through it
+        for a in args:
+            if a[0] == 'viter':
+                cur = self.vec_get(a[1], P)
+                if cur is not None and cur[0] == 'cvec':
+                    self.vec_put(a[1], ('unk', 'vector passed to unmodelled routine ' + n), P, loc)
+        return None
+
+    def construct_object(self, e, P, fr):
+        """temporary / local object of a repository class built by one of its own constructors: the constructor's
+        initialiser list and body are executed on a fresh object path; the value is a reference to that object"""
+        ty = str(e.get('t', '')).replace('const ', '')
+        if ty not in self.prog.records or fr['depth'] >= MAX_DEPTH:
+            return None
+        ctor = [f for f in self.prog.methods_of(ty) if f.get('ctor') and f.sig == e.get('ctor')]
+        if len(ctor) != 1 or len(ctor[0].params) != len(e['args']):
+            return None
+        fn = ctor[0]
+        self._obj_n = getattr(self, '_obj_n', 0) + 1
+        tmp = '@obj%d' % self._obj_n
+        args = [self.ref_or_value(a, p_, P, fr) for a, p_ in zip(e['args'], fn.params)]
+        sub = {'id': self.new_frame_id(), 'args': list(args), 'this': tmp, 'depth': fr['depth'] + 1, 'fn': fn}
+        for i in fn.inits:
+            if i.get('member') and i.get('e') is not None:
+                P.mem[tmp + '.' + i['member']] = self.E(i['e'], P, sub)
+        outs = self.exec_block(stmts(fn.body), [P], sub, top=True) if fn.body is not None else [P]
+        if len(outs) != 1 or outs[0].kind == 'exit':
+            return None
+        self.adopt(P, outs[0])
+        self.trace.inlined.add(fn.q)
+        return ('sym', 'this:' + tmp)
 
     def ref_or_value(self, a, p, P, fr):
         """argument for parameter p: non-const lvalue references to members / locals are passed as aliases"""
@@ -628,6 +891,13 @@ class Evaluator:
                 this_path = self.mpath(o, P, fr)
                 if this_path is None:
                     return None
+                pv = P.mem.get(this_path)
+                if pv is not None and pv[0] == 'sym' and pv[1].startswith('this:'):
+                    this_path = pv[1][5:]
+                    if e.get('virt') and self.dyn_class and this_path == '':
+                        owner, m = cat.resolve_virtual(prog, self.dyn_class, e['n'], sig)
+                        c = prog.fn(owner + '::' + e['n'], sig) if owner else None
+                        return (c[0], this_path) if c else None
             elif o.get('k') == 'un' and o['op'] == '*':
                 t = self.E(o['e'], P, fr)
                 if t[0] == 'sym' and t[1].startswith('this:'):
@@ -959,6 +1229,74 @@ class Evaluator:
     def adopt_into(P, Q):
         P.locals, P.mem, P.conds, P.events, P.kind, P.ret, P.exit_hit = Q.locals, Q.mem, Q.conds, Q.events, Q.kind, Q.ret, Q.exit_hit
 
+    def sum_idiom(self, s, P, fr):
+        """`for (i = 0; i < V.size(); ++i) acc += V[i];` and `for (it = V.begin(); it != V.end(); ++it) acc += *it;`
+        (nothing else in the body) give acc + vsum(V), the sum of all elements of V - the same term std::accumulate over
+        [begin, end) gives.  Any other bounds or body fall through to the generic summary."""
+        from .ast import is_local, full_container_loop
+        if s.get('k') != 'for':
+            return None
+        init = s.get('init')
+        if not (init and init.get('k') == 'decl' and len(init['vars']) == 1):
+            return None
+        lid = init['vars'][0]['id']
+        body = [x for x in stmts(s.get('body')) if x.get('k') != 'null']
+        while len(body) == 1 and body[0].get('k') == 'block':
+            body = [x for x in stmts(body[0]) if x.get('k') != 'null']
+        if len(body) != 1:
+            return None
+        b = strip(body[0])
+        if not (b.get('k') == 'bin' and b['op'] == '+=' and strip(b['a'], casts=True).get('k') == 'local'):
+            return None
+        acc = strip(b['a'], casts=True)
+        if acc['id'] == lid:
+            return None
+        rhs = strip(b['b'], casts=True)
+        cont = None
+        holder = {}
+
+        def pred(x):
+            holder.setdefault('c', x)
+            return x is not None
+        if full_container_loop(s, pred) == lid and holder.get('c') is not None:
+            # acc += *it
+            if rhs.get('k') == 'call' and rhs.get('n') == 'operator*' and len(rhs['args']) == 1 and is_local(rhs['args'][0], lid, casts=True):
+                cont = holder['c']
+                c2 = strip(strip(s['c'], casts=True)['args'][1], casts=True)
+                while c2.get('k') == 'construct' and len(c2['args']) == 1:
+                    c2 = strip(c2['args'][0], casts=True)
+                if self.E(c2.get('obj'), P, fr) != self.E(cont, P, fr):
+                    return None
+        else:
+            start = P.locals.get((fr['id'], lid))
+            c = strip(s.get('c'), casts=True)
+            inc = strip(s.get('inc'), casts=True)
+            if not (start == num(0) and c.get('k') == 'bin' and c['op'] in ('<', '!=') and is_local(c['a'], lid, casts=True)):
+                return None
+            sz = strip(c['b'], casts=True)
+            while sz.get('k') == 'construct' and len(sz['args']) == 1:
+                sz = strip(sz['args'][0], casts=True)
+            if not (sz.get('k') == 'call' and sz.get('n') == 'size' and sz.get('obj') is not None):
+                return None
+            if not ((inc.get('k') == 'un' and inc['op'] == '++' and is_local(inc['e'], lid, casts=True)) or
+                    (inc.get('k') == 'bin' and inc['op'] == '+=' and is_local(inc['a'], lid, casts=True) and self.E(inc['b'], P, fr) == num(1))):
+                return None
+            if rhs.get('k') == 'call' and rhs.get('n') in ('operator[]', 'at'):
+                base = rhs['args'][0] if rhs.get('opcall') else rhs.get('obj')
+                ix = rhs['args'][1] if rhs.get('opcall') else (rhs['args'][0] if rhs.get('args') else None)
+                if base is not None and ix is not None and is_local(ix, lid, casts=True) and self.E(base, P, fr) == self.E(sz['obj'], P, fr):
+                    cont = base
+        if cont is None:
+            return None
+        cur = P.locals.get((fr['id'], acc['id']))
+        if cur is None:
+            return None
+        vt = self.E(cont, P, fr)
+        P.locals[(fr['id'], acc['id'])] = ('add', (cur, ('call', 'vsum', (vt,))))
+        P.locals[(fr['id'], lid)] = ('unk', 'loop variable after the loop')
+        P.events.append(('loop', (None, ()), s.get('l')))
+        return [P]
+
     def exec_loop(self, s, P, fr):
         """one abstract iteration.  Variables assigned in the body carry the marker symbol
         '@loop:<name>' on entry to the body and become the opaque term loop(<values after one
@@ -969,6 +1307,9 @@ class Evaluator:
         un = self.try_unroll(s, P, fr)
         if un is not None:
             return un
+        sm = self.sum_idiom(s, P, fr)
+        if sm is not None:
+            return sm
         loc, mem = self.scan_assigned({'b': s.get('body'), 'i': s.get('inc')}, P, fr)
         for lid, name in loc.items():
             if (fr['id'], lid) in P.locals:
@@ -1019,6 +1360,85 @@ class Evaluator:
         fr = {'id': self.new_frame_id(), 'args': args, 'this': '', 'depth': 0, 'fn': fn}
         outs = self.exec_block(stmts(fn.body), [Path()], fr, top=True)
         return outs
+
+
+def _first_ite(t):
+    """path (list of child indices) to the first ite sub-term in arithmetic position, or None"""
+    if not isinstance(t, tuple) or not t:
+        return None
+    if t[0] == 'ite':
+        return []
+    if t[0] in ('add', 'mul'):
+        for i, x in enumerate(t[1]):
+            r = _first_ite(x)
+            if r is not None:
+                return [1, i] + r
+    elif t[0] in ('neg',):
+        r = _first_ite(t[1])
+        if r is not None:
+            return [1] + r
+    elif t[0] == 'div':
+        for j in (1, 2):
+            r = _first_ite(t[j])
+            if r is not None:
+                return [j] + r
+    elif t[0] == 'call':
+        for i, x in enumerate(t[2]):
+            r = _first_ite(x)
+            if r is not None:
+                return [2, i] + r
+    return None
+
+
+def _replace_at(t, path, new):
+    if not path:
+        return new
+    i = path[0]
+    lst = list(t)
+    lst[i] = _replace_at(t[i], path[1:], new)
+    return tuple(lst)
+
+
+def _get_at(t, path):
+    for i in path:
+        t = t[i]
+    return t
+
+
+def split_ite(conds, term, limit=256):
+    """a value that selects between alternatives (ternary operator, or an inlined callee with several return
+    statements) is the same thing as branching: expand into [(conds, ite-free term)].  Conditions of nested selections are
+    appended in evaluation order; contradictory combinations (c and not c) are dropped."""
+    work = [(list(conds), term)]
+    done = []
+    while work:
+        cs, t = work.pop(0)
+        pth = _first_ite(t)
+        if pth is None:
+            done.append((cs, t))
+            continue
+        it = _get_at(t, pth)
+        c = it[1]
+        cl = list(c[1]) if c[0] == 'andlist' else [c]
+        def negate(x):
+            return x[1] if x[0] == 'not' else ('not', x)
+        rem = [x for x in cl if x not in cs]
+        if not rem:
+            alt = None              # the selection's condition already holds on this path: no else branch
+        elif len(rem) == 1:
+            alt = [negate(rem[0])]
+        else:
+            alt = [('not', ('andlist', tuple(rem)))]
+        for branch, extra in ((it[2], cl), (it[3], alt)):
+            if extra is None:
+                continue
+            ncs = cs + [x for x in extra if x not in cs]
+            if any((x[0] == 'not' and x[1] in ncs) or (('not', x) in ncs) for x in ncs):
+                continue
+            work.append((ncs, _replace_at(t, pth, branch)))
+        if len(work) + len(done) > limit:
+            raise ValueError('too many alternatives')
+    return done
 
 
 def subterms(t):
